@@ -251,6 +251,9 @@ class FullWorld:
                 if link.can_observe_loss(1 - frm):
                     link.observe_loss(1 - frm)
             return
+        if self.join_units and len(link.ends[frm].out) >= 2:
+            # two units that were written one after the other arrive in one read
+            link.ends[frm].out[0:2] = [link.ends[frm].out[0] + link.ends[frm].out[1]]
         try:
             link.deliver(frm)
         except sim._ProtocolRaised as e:
@@ -451,7 +454,7 @@ class FullWorld:
             if not moved and not self.units_first:
                 moved = self._run_out_turns()
             if not moved:
-                for i, link in sorted(self.links.items()):
+                for i, link in sorted(self.links.items(), reverse=self.rev_links):
                     if link is None:
                         continue
                     for e in (0, 1):
@@ -487,6 +490,8 @@ class FullWorld:
     # the next unit in flight on some link.  units_first: records sent right behind the KCM reach a Follower whose accept()
     # turn has not run yet
     units_first = False
+    join_units = False      # whatever is queued behind a unit on its link arrives with it, in one read
+    rev_links = False       # which link is served first when several have something in flight
 
     def _run_out_turns(self):
         if self.natural:
@@ -795,7 +800,7 @@ def app_events_family(wd, prop, quick, seed):
 TRANSIT_RELAY_PORT = 4801
 
 
-def relay_case(tid, has_relay, cuts, units_first=False):
+def relay_case(tid, has_relay, cuts, units_first=False, join=False, rev=False):
     """Neither side can be dialled (no_listen on both): the only path is a transit relay, configured on the sides in
     `has_relay` (the other side learns it from the peer's hints - the same hint in every generation).  Connect, then `cuts`
     times: the network cuts the Leader's leg, everything is run out fairly.  At rest the two sides must be connected to
@@ -804,11 +809,13 @@ def relay_case(tid, has_relay, cuts, units_first=False):
     from twisted.internet import protocol as tproto
     w = FullWorld(variant=tid, no_listen=("L", "F"))
     w.units_first = units_first
+    # join: the relay's "ok" and what the peer sent right behind it reach an end in one read (on whichever leg is served last)
+    w.join_units, w.rev_links = join, rev
     RelayStub.waiting = {}
     stub = type("DilRelayStub", (RelayStub,), {"waiting": {}})
     reactor.listenTCP(TRANSIT_RELAY_PORT, tproto.Factory.forProtocol(stub))
     w.dilate_kwargs_by_side = {n: {"transit_relay_location": "tcp:10.9.9.9:%d" % TRANSIT_RELAY_PORT} for n in has_relay}
-    w.schedule.append(["relay-only", sorted(has_relay), cuts, units_first])
+    w.schedule.append(["relay-only", sorted(has_relay), cuts, units_first, join, rev])
     try:
         w.do(("AppDilate", "L", 0))
         w.do(("AppDilate", "F", 0))
@@ -903,6 +910,49 @@ def reconnect_then_close_case(tid, first, closers, cuts=1):
     final = w.state()
     internal = w.finish()
     benign = [x for x in internal if any(b in x for b in BENIGN)]
+    rec = {"tid": tid, "snaps": w.snaps, "final": final, "internal": [x for x in internal if x not in benign], "benign": len(benign),
+           "stopCalled": {n: n in w.stop_called for n in ("L", "F")}, "atEnd": final, "rested": bool(rested),
+           "specStopped": {"L": False, "F": False}, "convergenceDue": False,
+           "restStopDue": {n: bool(rested and n in w.stop_called) for n in ("L", "F")}, "restConvergenceDue": False,
+           "secondConnected": all(second[n]["mgr"] == "CONNECTED" for n in ("L", "F"))}
+    return w, rec
+
+
+def incompatible_peer_case(tid, odd, closers, cut):
+    """A peer that dilates but shares no Dilation version with us (side `odd` runs another build: its "can-dilate" list and what
+    it accepts are disjoint from ours).  Each side reports the incapable peer to its application (OldPeerCannotDilateError) -
+    and both go on through the motions all the same: PLEASE, hints, the connection race.  Whatever comes of that, close() on the
+    sides in `closers` must complete and leave nothing behind (optionally after the network cut whatever link was in use)."""
+    w = FullWorld(variant=tid)
+    w.schedule.append(["incompatible-peer", odd, list(closers), bool(cut)])
+    b = w.cl[odd].boss
+    b._versions["can-dilate"] = ["another-build"]          # (one dict, shared by Boss and Key: what the version message says)
+    b._D._acceptable_versions = ["another-build"]
+    rested = True
+    try:
+        w.do(("AppDilate", "L", 0))
+        w.do(("AppDilate", "F", 0))
+        rested = w.run_out()
+        if cut:
+            sel = w.selected_links("L") or w.selected_links("F")
+            if sel:
+                w.do(("Cut", "-", sel[0]))
+                rested = w.run_out() and rested
+        second = w.state()
+        for x in closers:
+            w.do(("Stop", x, 0))
+        rested = w.run_out() and rested
+    except Exception as e:
+        rested = False
+        w.internal.append("incompatible_peer_case: %r" % (e,))
+        second = w.state()
+    final = w.state()
+    internal = w.finish()
+    # On the pinned tree connector_connection_made() ends with `_main_channel.fire(None)` although that observer already
+    # carries OldPeerCannotDilateError: OneShotObserver.fire() asserts, the Connector's eventual-queue turn logs the
+    # AssertionError, and nothing else comes of it (the connection is in use by then).  C17 states nothing about the log: what is
+    # judged here is that close() completes and nothing is left (DESIGN 7.3); the logged assertion is counted, not judged.
+    benign = [x for x in internal if any(bn in x for bn in BENIGN) or x.startswith("AssertionError")]
     rec = {"tid": tid, "snaps": w.snaps, "final": final, "internal": [x for x in internal if x not in benign], "benign": len(benign),
            "stopCalled": {n: n in w.stop_called for n in ("L", "F")}, "atEnd": final, "rested": bool(rested),
            "specStopped": {"L": False, "F": False}, "convergenceDue": False,
@@ -1211,6 +1261,17 @@ def run(prop, tier):
                     rec.setdefault("oldpeer", {"ok": True, "closed": True})
                     records.append(rec)
                     meta[tid] = {"schedule": w.schedule, "no_listen": ["F", "L"], "traffic": False, "frag": 0}
+        for has in ((("L", "F"),) if quick else (("L",), ("F",), ("L", "F"))):
+            for cuts in (1,) if quick else (0, 1, 2):
+                for uf in (False, True):
+                    for rev in (False, True):
+                        tid += 1
+                        nrelay += 1
+                        w, rec = relay_case(tid, has, cuts, uf, join=True, rev=rev)
+                        rec["origin"], rec["config"] = "family:relay-only-joined", "relay"
+                        rec.setdefault("oldpeer", {"ok": True, "closed": True})
+                        records.append(rec)
+                        meta[tid] = {"schedule": w.schedule, "no_listen": ["F", "L"], "traffic": False, "frag": 0}
         cov["relay_only_cases"] = nrelay
         # family: reconnect (either side noticing first, once or twice), then close (either side, both)
         nrc = 0
@@ -1225,6 +1286,19 @@ def run(prop, tier):
                     records.append(rec)
                     meta[tid] = {"schedule": w.schedule, "no_listen": [], "traffic": False, "frag": 0}
         cov["reconnect_then_close_cases"] = nrc
+        # family: a peer of another build (no Dilation version in common) that dilates all the same; then close
+        ninc = 0
+        for odd in ("L", "F"):
+            for closers in ((("L", "F"), ("F",)) if quick else (("L",), ("F",), ("L", "F"), ("F", "L"))):
+                for cut in (False, True):
+                    tid += 1
+                    ninc += 1
+                    w, rec = incompatible_peer_case(tid, odd, closers, cut)
+                    rec["origin"], rec["config"] = "family:incompatible-peer", "full"
+                    rec.setdefault("oldpeer", {"ok": True, "closed": True})
+                    records.append(rec)
+                    meta[tid] = {"schedule": w.schedule, "no_listen": [], "traffic": False, "frag": 0}
+        cov["incompatible_peer_cases"] = ninc
         # family: a wormhole that closes by itself (undecryptable peer message) while dilated
         nsc = 0
         for victim in ("L", "F"):
